@@ -97,13 +97,16 @@ def main():
                 if os.path.exists(os.path.join("/verif", rp)):
                     shutil.copyfile(os.path.join("/verif", rp), os.path.join(out, "replay-" + os.path.basename(rp)))
         meta["detected_by"] = [p for p, v in meta["checks"].items() if v["exit"] == 1]
-        shutil.copyfile(patch, os.path.join(out, "patch.diff"))
-        shutil.copyfile(demo, os.path.join(out, "demo_test.go"))
+        same = os.path.realpath(src) == os.path.realpath(out)
+        if not same:
+            shutil.copyfile(patch, os.path.join(out, "patch.diff"))
+            shutil.copyfile(demo, os.path.join(out, "demo_test.go"))
         rd = os.path.join(src, "README.md")
         if os.path.exists(rd):
             txt = open(rd).read()
             meta["needs"] = txt[:3000]
-            shutil.copyfile(rd, os.path.join(out, "README.md"))
+            if not same:
+                shutil.copyfile(rd, os.path.join(out, "README.md"))
         prev = os.path.join(out, "meta.json")
         if os.path.exists(prev):
             try:
